@@ -68,6 +68,7 @@ struct GenCfg {
   bool force_call_in_loop = false;
   bool dup_params = false;   // C03 "unusual declarations" (never for semantic checks)
   bool arith_heavy = false;  // many mixed &/* expressions (their meaning depends on the macro priorities)
+  bool wide_frame = false;   // the main body starts with 236-300 assignments to distinct variables: register indices >= 256
   int max_top = 8;
   int max_depth = 3;
   int max_stmts = 40;
@@ -222,9 +223,10 @@ struct Gen {
       unsigned w_goto = (cfg.jumps && !cfg.loops_only) ? 2 : 0;
       unsigned w_if = (cfg.jumps && !cfg.loops_only) ? 2 : 0;
       unsigned w_stop = 1;
-      unsigned w_mif = (cfg.user_macros && deep && !cfg.loops_only) ? 1 : 0;
-      unsigned w_swap = cfg.user_macros && !cfg.loops_only ? 1 : 0;
-      unsigned w_rep = (cfg.user_macros && deep && !cfg.loops_only) ? 1 : 0;
+      // (the library macros expand to LOOPs and assignments only, so they are allowed in LOOP-only programs)
+      unsigned w_mif = (cfg.user_macros && deep) ? 1 : 0;
+      unsigned w_swap = cfg.user_macros ? 1 : 0;
+      unsigned w_rep = (cfg.user_macros && deep) ? 1 : 0;
       Stmt s;
       switch (t.weighted({10, w_loop, w_while, w_goto, w_if, w_stop, w_mif, w_swap, w_rep})) {
         case 0:
@@ -496,7 +498,23 @@ struct Gen {
           r.out = var();
       }
       int upto = (int)p.defs.size();
-      r.body = block(&r, upto, 0, false, true, 4);
+      if (cfg.wide_frame && d == 0 && t.chance(1, 2)) {
+        // a callee with a frame of about 256 registers
+        int n = 236 + (int)t.pick(65);
+        for (int i = 0; i < n; i++) {
+          Stmt s;
+          s.k = Stmt::ASSIGN;
+          s.x = "w" + std::to_string(i);
+          s.v.k = Val::CONST;
+          s.v.c = 1 + i % 7;
+          r.body.push_back(s);
+        }
+        classes.insert("wide-callee-frame(~256-registers)");
+      }
+      {
+        std::vector<Stmt> b = block(&r, upto, 0, false, true, 4);
+        r.body.insert(r.body.end(), b.begin(), b.end());
+      }
       if (t.chance(2, 3)) {  // make the result depend on something
         Stmt s;
         s.k = Stmt::ASSIGN;
@@ -527,6 +545,18 @@ struct Gen {
       lp.body.push_back(c);
       p.main.push_back(pre);
       p.main.push_back(lp);
+    }
+    if (cfg.wide_frame) {
+      int n = 236 + (int)t.pick(65);  // frame sizes around 256, often exactly a multiple of it
+      for (int i = 0; i < n; i++) {
+        Stmt s;
+        s.k = Stmt::ASSIGN;
+        s.x = "w" + std::to_string(i);
+        s.v.k = Val::CONST;
+        s.v.c = 1 + i % 7;
+        p.main.push_back(s);
+      }
+      classes.insert("wide-frame(~256-registers)");
     }
     std::vector<Stmt> rest = block(nullptr, upto, 0, false, true, cfg.max_top);
     p.main.insert(p.main.end(), rest.begin(), rest.end());
@@ -892,10 +922,11 @@ struct Layout {
 
 // file names: "all file maps" includes long paths and names with unusual characters
 inline std::string name_prefix(Tape &t) {
-  switch (t.weighted({8, 1, 1, 1})) {
+  switch (t.weighted({8, 1, 1, 1, 1})) {
     case 1: return "a very/long/path/with some spaces/and-a-lot-of-characters/so that fixed size buffers overflow/0123456789/0123456789/0123456789/x/";
     case 2: return "d\xc3\xa4 r/#1:$0;";
     case 3: return "_";
+    case 4: return std::string("n\0", 2);  // names that agree up to an embedded NUL byte
     default: return "";
   }
 }
@@ -933,6 +964,8 @@ inline Layout layout_canonical(const Program &p, Tape &t, int nfiles) {
   Layout L;
   std::string prefix = name_prefix(t);
   L.main = prefix + "main.theo";
+  bool digit_names = prefix == "_";
+  if (digit_names) L.main = "m";
   L.first_tok = pr.first_tok;
   L.end_tok = pr.end_tok;
   L.rend_tok = pr.rend_tok;
@@ -999,15 +1032,20 @@ inline Layout layout_canonical(const Program &p, Tape &t, int nfiles) {
     if (len == src.size()) len--;
     if (len == 0) continue;
     if (from == shared_name) continue;  // the shared file stays as it is
-    std::string name = prefix + "inc" + std::to_string(f) + ".theo";
+    std::string name = digit_names ? "m" + std::to_string(f) : prefix + "inc" + std::to_string(f) + ".theo";
     std::vector<Entry> moved(src.begin() + (long)a, src.begin() + (long)(a + len));
     src.erase(src.begin() + (long)a, src.begin() + (long)(a + len));
     src.insert(src.begin() + (long)a, Entry{true, Line(), name});
     fl[name] = moved;
   }
+  int main_offset = t.chance(1, 40) ? 65530 + (int)t.pick(12) : 0;  // line numbers beyond 16 bits
   for (auto &e : fl) {
     std::string text;
     int ln = 0;
+    if (e.first == L.main && main_offset) {
+      text.assign((size_t)main_offset, '\n');
+      ln = main_offset;
+    }
     for (auto &en : e.second) {
       ln++;
       if (en.is_inc)
@@ -1050,6 +1088,8 @@ inline Layout layout_free(const Program &p, Tape &t, int nfiles) {
   Layout L;
   std::string prefix = name_prefix(t);
   L.main = prefix + "main.theo";
+  bool digit_names = prefix == "_";  // scheme "m", "m1", "m2", ...: one name is another name plus a digit
+  if (digit_names) L.main = "m";
   bool defs_in_file = !defs.empty() && nfiles > 1 && t.chance(1, 2);
   std::string defs_text = defs_free(defs, t);
   for (auto &k : pr.out) toks.push_back(k.text);
@@ -1103,13 +1143,13 @@ inline Layout layout_free(const Program &p, Tape &t, int nfiles) {
     for (size_t i = pos; i < c.a; i++) text += seps[i] + toks[i];
     std::string name = c.name;
     if (name.empty()) {
-      name = prefix + "part" + std::to_string(++fno) + ".theo";
+      name = digit_names ? "m" + std::to_string(++fno) : prefix + "part" + std::to_string(++fno) + ".theo";
       std::string body;
       for (size_t i = c.a; i < c.b; i++) body += (i == c.a ? "" : seps[i]) + toks[i];
       // optionally nest: split the part once more
       if (c.b - c.a >= 4 && t.chance(1, 3)) {
         size_t mid = c.a + 1 + t.pick((unsigned)(c.b - c.a - 2));
-        std::string n2 = prefix + "sub" + std::to_string(fno) + ".theo";
+        std::string n2 = digit_names ? "m" + std::to_string(fno) + "2" : prefix + "sub" + std::to_string(fno) + ".theo";
         std::string b1, b2;
         for (size_t i = c.a; i < mid; i++) b1 += (i == c.a ? "" : seps[i]) + toks[i];
         for (size_t i = mid; i < c.b; i++) b2 += (i == mid ? "" : seps[i]) + toks[i];
@@ -1127,6 +1167,7 @@ inline Layout layout_free(const Program &p, Tape &t, int nfiles) {
   }
   for (size_t i = pos; i < toks.size(); i++) text += seps[i] + toks[i];
   text += seps[toks.size()];
+  if (t.chance(1, 40)) text = std::string((size_t)(65530 + t.pick(12)), '\n') + text;  // line numbers beyond 16 bits
   L.files[L.main] = text;
   return L;
 }
